@@ -1,13 +1,19 @@
 (* C19 - Encoder misuse and sink failures fail cleanly; Ok from finish means complete (PARTIAL).
    ONLY property theorems (closed by [exact]; statements pinned textually), Print Assumptions.
-   The part of the property a chunk-level model can carry: for every configuration and a history supplying the declared images, the Writer model
-   emits a stream that the strict validator accepts - in particular it ends in exactly ONE IEND and nothing follows (the validator refuses any
-   chunk after IEND and any stream without it).  The remaining clauses (no panic for arbitrary histories, errors under sink failures at every
-   index, sequence validation, Drop never writing a second IEND) depend on Rust Drop order and io::Error propagation, which this model does not
-   represent: they are decided by fault enumeration on every run (harness/src/c19.rs), with three known findings listed in known_findings.json. *)
+   PROVED on the chunk-level models of the Writer (Model/Encoder.v, and Model/WriterFail.v = the same over a sink that starts refusing writes
+   after any number of chunks, with or without sequence validation, the history ending in finish or in drop):
+   (1) the sink accepts IEND at most once and nothing after it, for EVERY history, every failure point, finish (successful or not) or drop;
+   (2) when finish returns Ok no call of the history met a refused write and the sink holds exactly what a healthy sink holds - every chunk of
+       every image the writer took, and IEND (a refusing sink keeps refusing; an operation that reports the sink error leaves it refusing;
+       finish cannot return Ok over a refusing sink);
+   (3) with sequence validation, finish returning Ok means the sink holds the complete stream of the declared images, which the strict validator
+       accepts, and exactly the declared number of image calls succeeded; a history in which every call returns Ok has the declared number of images
+       (so too few or too many images are reported by some call).
+   NOT MODELLED (decided by fault enumeration on every run, harness/src/c19.rs, with three known findings): failures in the middle of a chunk
+   (the bytes of a refused chunk), the stream writer's own finish/Drop path, frame-parameter setters, raw/text chunks, panics (Rust runtime). *)
 From Coq Require Import List Arith Bool Lia.
 Import ListNotations.
-From PngV Require Import Spec.Validator Model.Encoder Proofs.EncoderProofs.
+From PngV Require Import Spec.Validator Model.Encoder Proofs.EncoderProofs Model.WriterFail Proofs.WriterFailProofs.
 
 (* the emitted stream of a finished (or dropped) writer is complete and ends in exactly one IEND *)
 Theorem C19_finished_stream_is_complete_with_one_IEND :
@@ -22,7 +28,89 @@ Theorem C19_IEND_accepted_only_at_a_complete_stream :
        inv c nf s v -> frames v = nf -> ph (vstep v KIEND) = PEnd.
 Proof. exact end_ok. Qed.
 
+(* (1) every history, every failure point, finish or drop: IEND at most once, and last *)
+Theorem C19_iend_at_most_once_and_last :
+  forall (validate : bool) (c : wcfg) (budget : option nat) (ns : list nat) (finish : bool),
+       iend_once_and_last (fst (f_history validate c budget ns finish)).
+Proof. exact iend_at_most_once_and_last. Qed.
+
+(* (2) finish returned Ok: no refused write anywhere in the history, and the sink holds what a healthy sink holds *)
+Theorem C19_finish_ok_means_nothing_was_lost :
+  forall (validate : bool) (c : wcfg) (budget : option nat) (ns : list nat),
+       last (snd (f_history validate c budget ns true)) FErrSink = FOk ->
+       ~ In FErrSink (snd (f_history validate c budget ns true)) /\
+       f_history validate c budget ns true = f_history validate c None ns true.
+Proof. exact finish_ok_means_nothing_was_lost. Qed.
+
+(* (2) a sink that has started refusing keeps refusing through every image call *)
+Theorem C19_a_refusing_sink_keeps_refusing :
+  forall (validate : bool) (c : wcfg) (s : fstate) (n : nat) (s1 : fstate) (r : fres),
+       refusing s -> f_image validate c s n = (s1, r) -> refusing s1.
+Proof. exact refusing_stays_image. Qed.
+
+(* (2) a call that reports the sink error leaves a refusing sink *)
+Theorem C19_sink_error_leaves_a_refusing_sink :
+  forall (validate : bool) (c : wcfg) (s : fstate) (n : nat) (s1 : fstate),
+       f_image validate c s n = (s1, FErrSink) -> refusing s1.
+Proof. exact sink_error_refusing. Qed.
+
+(* (2) finish never returns Ok over a refusing sink *)
+Theorem C19_finish_over_a_refusing_sink_is_not_ok :
+  forall (validate : bool) (c : wcfg) (s : fstate), refusing s -> snd (f_finish validate c s) <> FOk.
+Proof. exact finish_refusing. Qed.
+
+(* (3) sequence validation: finish Ok = the complete conformant stream of the declared images, and exactly the declared number of image calls succeeded *)
+Theorem C19_validated_finish_ok_means_complete_stream :
+  forall (c : wcfg) (budget : option nat) (ns : list nat),
+       cfg_ok c ->
+       Forall (fun n : nat => 1 <= n) ns ->
+       last (snd (f_history true c budget ns true)) FErrSink = FOk ->
+       conformant (header c ++ fst (f_history true c budget ns true)) = true /\
+       length
+         (filter (fun r : fres => match r with
+                                  | FOk => true
+                                  | _ => false
+                                  end) (removelast (snd (f_history true c budget ns true)))) =
+       declared_images c.
+Proof. exact validated_finish_ok_means_complete_stream. Qed.
+
+(* (3) sequence validation: if every call of a history returns Ok, the history has the declared number of images *)
+Theorem C19_validated_wrong_count_is_reported :
+  forall (c : wcfg) (budget : option nat) (ns : list nat),
+       cfg_ok c ->
+       Forall (fun n : nat => 1 <= n) ns ->
+       Forall (fun r : fres => r = FOk) (snd (f_history true c budget ns true)) ->
+       length ns = declared_images c.
+Proof. exact validated_wrong_count_is_reported. Qed.
+
+(* over a healthy sink an image call either is refused by validation or does what the Writer model of C12 does *)
+Theorem C19_healthy_image_call_is_the_writer_model :
+  forall (validate : bool) (c : wcfg) (w : wstate) (log : list ck) (n : nat),
+       f_image validate c {| f_w := w; f_left := None; f_log := log |} n =
+       (if new_image_ok validate c w
+        then
+         ({| f_w := fst (write_image c w n); f_left := None; f_log := log ++ snd (write_image c w n) |}, FOk)
+        else ({| f_w := w; f_left := None; f_log := log |}, FErrEndReached)).
+Proof. exact f_image_healthy. Qed.
+
 Example C19_nonvacuous : conformant [KIHDR; KIDAT; KIEND; KIEND] = false /\ conformant [KIHDR; KIDAT] = false /\ conformant [KIHDR; KIDAT; KIEND] = true.
 Proof. vm_compute. repeat split; reflexivity. Qed.
+
+(* non-vacuity: a two-frame animation with validation; the sink refuses the 4th chunk write / is healthy / one image is missing / one too many *)
+Example C19_failing_sink_demo :
+  let c := mk_wcfg (Some 2) false false 0 0 in
+  f_history true c (Some 3) [1; 2] true = ([KFCTL 0; KIDAT; KFCTL 1], [FOk; FErrSink; FErrMissingFrames]) /\
+  f_history true c None [1; 2] true = ([KFCTL 0; KIDAT; KFCTL 1; KFDAT 2; KFDAT 3; KIEND], [FOk; FOk; FOk]) /\
+  f_history true c None [1] true = ([KFCTL 0; KIDAT; KIEND], [FOk; FErrMissingFrames]) /\
+  f_history true c None [1; 1; 1] true = ([KFCTL 0; KIDAT; KFCTL 1; KFDAT 2; KIEND], [FOk; FOk; FErrEndReached; FOk]).
+Proof. exact writer_fail_demo. Qed.
 Print Assumptions C19_finished_stream_is_complete_with_one_IEND.
 Print Assumptions C19_IEND_accepted_only_at_a_complete_stream.
+Print Assumptions C19_iend_at_most_once_and_last.
+Print Assumptions C19_finish_ok_means_nothing_was_lost.
+Print Assumptions C19_a_refusing_sink_keeps_refusing.
+Print Assumptions C19_sink_error_leaves_a_refusing_sink.
+Print Assumptions C19_finish_over_a_refusing_sink_is_not_ok.
+Print Assumptions C19_validated_finish_ok_means_complete_stream.
+Print Assumptions C19_validated_wrong_count_is_reported.
+Print Assumptions C19_healthy_image_call_is_the_writer_model.
